@@ -49,6 +49,14 @@ pub fn c02(out: &mut Vec<String>, rng: &mut Rng, tier: &str) {
         };
         out.push(format!("C02 {}", nk_line(rand_conf(rng), n, k)));
     }
+    // extreme confidence levels: next to 1 (the two-sided quantile rounds to 1: infinite critical value) and next to 0
+    for l in [f64::from_bits(1.0f64.to_bits() - 1), f64::from_bits(1.0f64.to_bits() - 2), 1.0 - 1e-15, 1.0 - 1e-12, 1e-300, f64::from_bits(1), 1e-17] {
+        for kind in 0..3u64 {
+            for (n, k) in [(4usize, 2usize), (10, 3), (1000, 2), (1000, 998), (100_000, 50_000)] {
+                out.push(format!("C02 {}", nk_line(conf_of(kind, l), n, k)));
+            }
+        }
+    }
     // front-ends: boolean data, predicate over data, running Stats
     let reps = if tier == "thorough" { 2000 } else { 300 };
     for i in 0..reps {
@@ -192,6 +200,28 @@ pub fn c17(out: &mut Vec<String>, rng: &mut Rng, tier: &str) {
                 let l1 = 0.001 + rng.unit() * 0.49;
                 let l2 = l1 + (0.9999 - l1) * (0.02 + 0.9 * rng.unit());
                 let (c1, c2) = (conf_of(kind, l1), conf_of(kind, l2));
+                out.push(format!("C17 rel p wider {} {} {} {} {} {} => {} | {}", enc_conf(&c1), n, k, enc_conf(&c2), n, k, w(c1, n, k), w(c2, n, k)));
+            }
+        }
+    }
+    // level scans: consecutive levels on a grid that is fine near 1 and near 0 (a higher level is wider)
+    for (n, k) in [(30usize, 7usize), (1000, 250), (1000, 12), (50_000, 49_000)] {
+        let mut grid: Vec<f64> = Vec::new();
+        for j in 1..40 {
+            grid.push(j as f64 * 0.025);
+        }
+        for j in 0..60 {
+            grid.push(0.999 + j as f64 * 0.00001665);
+        }
+        for j in 1..10 {
+            grid.push(1.0 - (10.0f64).powi(-4 - j));
+            grid.push((10.0f64).powi(-j));
+        }
+        grid.sort_by(|a, b| a.partial_cmp(b).unwrap());
+        grid.dedup();
+        for kind in 0..3u64 {
+            for w2 in grid.windows(2) {
+                let (c1, c2) = (conf_of(kind, w2[0]), conf_of(kind, w2[1]));
                 out.push(format!("C17 rel p wider {} {} {} {} {} {} => {} | {}", enc_conf(&c1), n, k, enc_conf(&c2), n, k, w(c1, n, k), w(c2, n, k)));
             }
         }
